@@ -87,7 +87,7 @@ func c20Lines(c *Check) {
 func c20Bounds(c *Check) {
 	p := c.P
 	c.Rule("R1", "every index / slice operation of the parser packages that the compiler could not prove in bounds is discharged by a dominating guard", 10)
-	sites, err := bceLog(p.Repo, []string{"./" + cfgparserRel, "./" + lexerRel})
+	sites, err := bceLog(p.Repo, []string{"./" + cfgparserRel, "./" + lexerRel}, p.Overlay)
 	if err != nil {
 		c.Fail("R1", "bce-log", token.NoPos, "undecided: "+err.Error())
 		return
